@@ -82,10 +82,10 @@ CHECKS['C13'] = {'engine': 'E-B + E-C', 'technique': 'explicit-state exploration
     'note': 'Switches only at line boundaries inside bisturi/generated code; preemption bound as stated; selectors follow the Ref docstring (fresh object per call) except in the dedicated selector-shared scenario. F2 (regex delimiter not kept) is a listed known finding.'}
 
 CHECKS['C15'] = {'engine': 'E-B on E-C', 'technique': 'explicit-state exploration: exhaustive enumeration of all operation histories up to depth 3/4 over the real code cache (real files, harness-controlled clock, virtual processes), violating traces replayed with real interpreter processes',
-    'text': 'All histories of define(declaration, options) x {A, same-length sibling A2, B, C, V} x option sets / new process / clock tick / bytecode toggle / forget sources, run on the real generate_code and importlib over real files whose time stamps the harness sets (everything in one second unless a tick occurs). After every definition the new class and every class still alive in the process must behave per its own declaration on a battery; violating histories and a share of passing ones are replayed with real interpreter processes.',
+    'text': 'All histories of define(declaration, options) x {A, same-length sibling A2, B, C, V} x option sets / new process / clock tick / bytecode toggle / forget sources, run on the real generate_code and importlib over real files whose time stamps the harness sets (everything in one second unless a tick occurs). After every definition the new class and every class still alive in the process must behave per its own declaration on a battery; violating histories and a share of passing ones are replayed with real interpreter processes. In addition every history of up to 4 (thorough 5) REAL interpreter processes, each plain or started with -O, defining A or its same-length sibling in one harness second, is run and checked (stale bytecode of another optimisation level survives the clean-up).',
     'note': 'Process isolation (private module table, import locks, bytecode flag) and the clock are modelled, files and import logic are real (mc/fsx.py, mc/cache.py); expected behaviour per declaration is 5 hand-written lines each; depth bound as stated.'}
 CHECKS['C16'] = {'engine': 'E-C', 'technique': 'fault enumeration of every crash point (before every file-system step, after every character written) plus explicit-state depth-first search with a visited set over all interleavings of the file-system steps of two processes, on the real implementation under an interposition layer',
-    'text': 'Crash: a definition is killed before each interposed file-system step and after each character of each write from several initial cache states; from every distinct resulting directory a fresh process defines the same, the same-length sibling and another declaration: it must succeed and behave per its own declaration. Interleavings: all schedules of two concurrently defining processes (identical, same-length, different declarations; several initial cache states; bytecode on/off; one clock tick anywhere) covered by DFS with a visited set keyed by (directory contents+mtimes, clock, per process pc + digest of observations); violating crash states are re-run with a real interpreter.',
-    'note': 'Each write() is a step and immediately visible; close() is not a step; steps on a file whose name carries the writing thread id are not choice points unless a directory listing occurred (they commute); 2 processes, <=1 clock tick; schedule cap reported in the evidence (exhaustive=false when hit).'}
+    'text': 'Crash: a definition is killed before each interposed file-system step and after each character of each write from several initial cache states; from every distinct resulting directory a fresh process defines the same, the same-length sibling and another declaration: it must succeed and behave per its own declaration. Interleavings: all schedules of two concurrently defining processes (identical, same-length, different declarations; several initial cache states; bytecode on/off; one clock tick anywhere) covered by DFS with a visited set keyed by (directory contents+mtimes, clock, per process pc + digest of observations); violating crash states are re-run with a real interpreter; the first violating schedule per signature and two passing schedules per pair are replayed by two real interpreter processes held to the recorded step order (a divergence is a harness failure). File objects are explored in three models: every write() visible at once, a 512-character buffer, and buffered until close() with a kill after every character.',
+    'note': 'close() is a step only in the buffered models; steps on a file whose name carries the writing thread id are not choice points unless a directory listing occurred (they commute); 2 processes, <=1 clock tick; schedule cap reported in the evidence (exhaustive=false when hit).'}
 
 NOT_APPLICABLE = {}
